@@ -6,6 +6,7 @@ import PestModel.Model.PStateDriver
 import PestModel.Model.Unicode
 import PestModel.Gen.MetaGrammar
 import PestModel.Gen.JsonGrammar
+import PestModel.Model.Json
 /-! Driver modes for the grammar layer:
 `O <extras> <pass> <rules>`                      → rules after the pass
 `V <cfg> <vm|gen> <orules> <rule> <input-hex>`  → outcome of the lowered back-end on the model state
@@ -225,6 +226,9 @@ def showReport (names : List String) (o : Out) : String :=
   | .panic => "panic"
   | .fuel => "fuel"
 
+partial def showJ : Json.JTree → String
+  | .node l a b ks => s!"({l} {a} {b} _" ++ String.join (ks.map fun k => " " ++ showJ k) ++ ")"
+
 def showRef (names : List String) : Ref.Res → String
   | .ok _ f => showForest names f
   | .fail => "fail"
@@ -312,6 +316,22 @@ def runLine (line : String) : String :=
             s!"err {p} [{",".intercalate (sortNames (pos.map (ruleName names)))}] [{",".intercalate (sortNames (neg.map (ruleName names)))}]")
       | _, _ => "bad-op"
     | _ => "bad-op"
+  | "J" :: ins =>
+    -- C18: RFC 8259 (executable transcription of the ABNF) and the reference denotation of the
+    -- regenerated json.pest must agree; the line shows the RFC verdict and tree
+    match ins.mapM strOf with
+    | some inputs =>
+      let rules := PestModel.Gen.Json.rules
+      let names := rules.map (·.name)
+      " | ".intercalate (inputs.map fun input =>
+        let rfc := match Json.jsonText input with | some t => "ok " ++ showJ t | none => "fail"
+        let den := match Ref.meaning rules false noUni 1000000 "json" input with
+          | .ok _ f => showForest names f
+          | .fail => "fail"
+          | .stuck => "stuck"
+          | .fuel => "fuel"
+        if rfc = den then rfc else s!"SPLIT rfc=[{rfc}] grammar=[{den}]")
+    | none => "bad-op"
   | "R" :: _ => "same"
   | "M0" :: _ :: ins => " | ".intercalate (ins.map fun _ => "-")
   | "M" :: rule :: ins =>
